@@ -443,11 +443,14 @@ func (u *Unit) enterBlock(s *State, f *Frame) bool {
 		s.Alloc = na
 	}
 	if mods.eff.all {
+		s.DirtyAll = true
+		s.DirtyNoFrame = true
 		for k, h := range s.Heaps {
 			s.Heaps[k] = u.havocHeap(s, k, h)
 		}
 	} else {
 		for k := range mods.eff.heaps {
+			u.ensureHeap(s, k)
 			if h, ok := s.Heaps[k]; ok {
 				s.Heaps[k] = u.havocHeap(s, k, h)
 			}
